@@ -58,7 +58,7 @@ prop('C06',
      'exceptions from non-constant subscripts and .index() in general; recursion depth; wall-clock time; memory.')
 
 prop('C20',
-     [B.r20_a, B.r20_b, B.r20_c, B.r20_d, B.r20_e, B.r20_f],
+     [B.r20_a, B.r20_b, B.r20_c, B.r20_d, B.r20_e, B.r20_f, B.r20_g],
      'Affine abstract interpretation of utils.Buffer: the cursor field (identified as what `position` returns) is '
      'tracked as an affine form over its entry value, the integer parameters and one iteration counter per loop '
      '(Karr-style invariant for paired increments); methods are summarised with symbolic arguments and the '
@@ -66,7 +66,7 @@ prop('C20',
      'per-operation contracts compose over every history of operations by induction.',
      'R20.a the non-moving operations have cursor delta 0 on every exit; R20.b forward/backward/next move by what '
      'they say and return the slice/item at the entry position, backward checks underflow first; R20.c exhaustion is '
-     'reported, not leaked; R20.d the queue is append-only and filled only from the iterator.',
+     'reported, not leaked; R20.d the queue is append-only and filled only from the iterator; R20.g the non-moving operations write no field.',
      'returned values beyond slice bounds; the fill-loop bound (relation between cursor and queue length); '
      'wrap-around of negative peeks at position 0.')
 
